@@ -1,6 +1,10 @@
+\* C14 thorough: exhaustive, <= 10 client-level steps, heights 1..3, 3 entries, batches of <= 3
+\* (+1 prune) records, 4 log files, faults on.
+\* Measured (6 workers on a loaded box): 3 472 245 distinct / 7 273 956 generated states, depth 26, 8.5 min
+\* (MaxEntries = 2: 929 618 distinct, 2.5 min).
 CONSTANTS
   MaxH = 3
-  MaxEntries = 2
+  MaxEntries = 3
   MaxBatch = 3
   MaxFiles = 4
   MaxSteps = 10
